@@ -93,4 +93,11 @@ CHECKS = {
             dict(name="realnats", run="^TestRealNATS$", shards=(1, 1)),
         ],
     ),
+    "C09": dict(
+        pkg="./c09", level="exploration",
+        runs=[
+            dict(name="configs", run="^TestPropSubscriptions$", checks=(2000, 12000), shards=(4, 16)),
+            dict(name="regress", run="^(TestRegress.*|TestRealNATS)$", shards=(1, 1)),
+        ],
+    ),
 }
